@@ -38,7 +38,8 @@ Enc(ss, pt) == IF HasKey(ss) THEN [t |-> "enc", ck |-> ss.ck, h |-> ss.h, pt |->
 CanDec(ss, ct) == IF HasKey(ss) THEN ct.t = "enc" /\ ct.ck = ss.ck /\ ct.h = ss.h ELSE TRUE
 Dec(ss, ct) == IF HasKey(ss) THEN ct.pt ELSE ct
 
-\* ---- scenario: [peer, impl, trole, pv, mitm: [msg, move, field], dialed, dialedForm, chunk]
+\* ---- scenario: [peer, impl, trole, pv, mitm: [msg, move, field], dialed, dialedForm, addrForm, chunk]
+\* (addrForm: how the dialed address names the remote socket -- ip4, ip6, dns, dns4, dns6; no rule below reads it)
 \* A peer id is a multihash of the protobuf-encoded identity key: `dialed` names the key the dialer
 \* expects ("none": no expectation, as on the listener side), `dialedForm` the multihash form of
 \* that expectation: "inline" (identity code, the only form an Ed25519 key ever proves) or
